@@ -285,6 +285,8 @@ where F: Frame, F::Sample: Flt, D: Detect<F>, <D::Output as Frame>::Sample: Flt 
     (v, pos_ok)
 }
 
+thread_local! { static ZFEED: std::cell::RefCell<(Vec<Vec<u64>>, usize)> = std::cell::RefCell::new((Vec::new(), 0)); }
+
 /// the reverse hand-over: the first `h` operations on the BARE detector, which is then wrapped (`source.detect_envelope(det)`)
 /// in its used state — previous envelope, current gains — for the rest: a detector does not start over when it is wrapped
 fn drive_wrap_warm<F, D>(mut det: Detector<F, D>, ops: &[EOp], h: usize) -> Vec<String>
@@ -298,6 +300,20 @@ where F: Frame, F::Sample: Flt, D: Detect<F>, <D::Output as Frame>::Sample: Flt 
             EOp::Attack(x) => { det.set_attack_frames(*x); v.push("-".into()); }
             EOp::Release(x) => { det.set_release_frames(*x); v.push("-".into()); }
         }
+    }
+    // for even h the rest goes through a ZERO-SIZED source (gen over a closure capturing nothing, thread-local feed)
+    if h % 2 == 0 {
+        let raws: Vec<Vec<u64>> = ops.iter().filter_map(|op| if let EOp::Next(raw) = op { Some(raw.clone()) } else { None }).skip(k).collect();
+        ZFEED.with(|z| *z.borrow_mut() = (raws, 0));
+        let mut s = signal::gen(|| ZFEED.with(|z| { let mut z = z.borrow_mut(); let i = z.1; z.1 += 1; match z.0.get(i) { Some(raw) => F::from_fn(|c| <F::Sample as Flt>::from_b(raw[c])), None => F::EQUILIBRIUM } })).detect_envelope(det);
+        for op in &ops[h..] {
+            match op {
+                EOp::Next(_) => v.push(frame_tok(s.next())),
+                EOp::Attack(x) => { s.set_attack_frames(*x); v.push("-".into()); }
+                EOp::Release(x) => { s.set_release_frames(*x); v.push("-".into()); }
+            }
+        }
+        return v;
     }
     let mut s = signal::from_iter(frames[k..].to_vec()).detect_envelope(det);
     for op in &ops[h..] {
